@@ -238,69 +238,12 @@ theorem session_path_dist_same_state (net : Net W) (geo : GeoT) (order : List Na
     (cut : Option W) (ud : Bool) :
     (stepOp net geo order se (.path s t cut ud)).1 = (stepOp net geo order se (.dist s (some t) cut ud)).1 := rfl
 
-/-- the flags a session leaves on the nodes are those of a forward pass from some source of the network -/
-def SessGood (net : Net W) (se : Sess W) : Prop := ∀ st, se.flags = some st → ∃ s, s < net.n ∧ Good net s st
-
-/-- the source of the call is a node of the network -/
-def OpOk (net : Net W) : Op W → Prop
-  | .path s _ _ _ => correctInputNode s < net.n
-  | .dist s _ _ _ => correctInputNode s < net.n
-  | .fwd s _ _ _ => correctInputNode s < net.n
-  | .back _ => True
-
-omit [IsOrderedAddMonoid W] in
-theorem sessGood_start (net : Net W) : SessGood net (Sess.start : Sess W) := by
-  intro st h; cases h
-
-theorem sess_forward_good (net : Net W) (hnet : WFNet net) (se : Sess W) (s : NodeArg) (t : Option NodeArg)
-    (cut : Option W) (ud : Bool) (hs : correctInputNode s < net.n) : SessGood net (se.forward net s t cut ud) := by
-  intro st h
-  simp only [Sess.forward, Option.some.injEq] at h
-  subst h
-  exact ⟨correctInputNode s, hs, forward_good net hnet _ _ cut net.n _ [] (good_init net _ hs)⟩
-
-theorem stepOp_good (net : Net W) (hnet : WFNet net) (geo : GeoT) (order : List Nat) (se : Sess W) (op : Op W)
-    (hok : OpOk net op) (hse : SessGood net se) : SessGood net (stepOp net geo order se op).1 := by
-  cases op with
-  | path s t cut ud =>
-    have := sess_forward_good net hnet se s (some t) cut ud hok
-    simp only [stepOp]
-    split <;> exact this
-  | dist s t cut ud =>
-    have := sess_forward_good net hnet se s t cut ud hok
-    simp only [stepOp]
-    split <;> exact this
-  | fwd s t cut ud => exact sess_forward_good net hnet se s t cut ud hok
-  | back t =>
-    simp only [stepOp]
-    split <;> exact hse
-
-/-- what a `.path` output of a session must be: never a divergence; a returned track is the chain of a real route
-(from the source of the last search) closed by the position of its last node, without analytical feature, and the
-weights of the route's edges sum to the label reported with it -/
-def OutOk (net : Net W) (geo : GeoT) : Out W → Prop
-  | .path b label => b ≠ .diverge ∧ ∀ nodes trk, b = .path nodes trk →
-      ∃ s t l g g' y, nodes = l ++ [t] ∧ trk = ⟨g ++ [geo.pos t], []⟩ ∧ Route net geo.toGeo s l g g' t y ∧ label = some y
-  | _ => True
-
-theorem backward_out_ok (net : Net W) (hu : UniqueIds net) (geo : GeoT) (s : Nat) (st : St W) (hg : Good net s st)
-    (t : Nat) : OutOk net geo (.path (runBackwardT net geo st t) (st.d t)) := by
-  obtain ⟨h1, h2⟩ := runBackward_spec net hu geo.toGeo s st hg t
-  rw [runBackwardT_eq]
-  cases hp : st.pred t with
-  | none => rw [h1 hp]; exact ⟨fun h => (by cases h), fun _ _ h => by cases h⟩
-  | some p =>
-    obtain ⟨l, g, g', y, hd, hr, hb⟩ := h2 p hp
-    rw [hb]
-    refine ⟨fun h => (by cases h), fun nodes trk h => ?_⟩
-    simp only [liftBack, BackT.path.injEq] at h
-    obtain ⟨rfl, rfl⟩ := h
-    exact ⟨s, t, l, g, g', y, rfl, rfl, hr, hd⟩
-
 /-- STATE MACHINE: in any sequence of calls `shortest_path` / `shortest_distance` / `run_routing_forward` /
 `run_routing_backward` on one network (nodes by id or by object, with or without `output_dict`, any targets and
 cut-offs, `run_routing_backward` for any node after any search), the backward loop always terminates and every track
-returned is the chain of a real route whose edge weights sum to the label of its last node. -/
+returned is the chain of a real route whose edge weights sum to the label of its last node.
+(`OutOk`: what that says of one output; `OpOk`: the source of a call is a node of the network; `SessGood`: the flags are those
+of a forward pass — all three in `Lemmas/GraphPathExt.lean`.) -/
 theorem session_outputs_ok (net : Net W) (hnet : WFNet net) (hu : UniqueIds net) (geo : GeoT) (order : List Nat) :
     ∀ (ops : List (Op W)) (se : Sess W), (∀ op ∈ ops, OpOk net op) → SessGood net se →
       (∀ o ∈ (runSession net geo order se ops).1, OutOk net geo o) ∧ SessGood net (runSession net geo order se ops).2 := by
@@ -467,6 +410,30 @@ example : (runSession demo4 demoT [0, 1, 2] Sess.start
      .path .none (some 0),
      .path .none none,
      .path (.path [1, 2] ⟨[ob 22, ob 21, ob 2], []⟩) (some 1)] := by decide +kernel
+
+/-- the same network with geometries that JOIN the node positions (`GeoOK`): edge 0 has a repeated vertex, edge 1 is stored
+against the travel, edges 2 and 3 are parallel with equal weights and different polylines -/
+def demoT2 : GeoT :=
+  { pos := ob,
+    geom := fun i => if i = 0 then ⟨[ob 0, ob 10, ob 10, ob 1], []⟩ else if i = 1 then ⟨[ob 2, ob 21, ob 1], [("speed", 0)]⟩
+                     else if i = 2 then ⟨[ob 1, ob 2], []⟩ else ⟨[ob 1, ob 30, ob 2], []⟩ }
+example : WFNet demo4 := by
+  intro e he
+  simp only [demo4, List.mem_cons, List.not_mem_nil, or_false] at he
+  rcases he with rfl | rfl | rfl | rfl <;> simp [demo4]
+example : UniqueIds demo4 := by
+  intro e he e' he' h
+  simp only [demo4, List.mem_cons, List.not_mem_nil, or_false] at he he'
+  rcases he with rfl | rfl | rfl | rfl <;> rcases he' with rfl | rfl | rfl | rfl <;> simp_all
+example : GeoOK demo4 demoT2.toGeo := by
+  intro e he
+  simp only [demo4, List.mem_cons, List.not_mem_nil, or_false] at he
+  rcases he with rfl | rfl | rfl | rfl <;> simp [demoT2, GeoT.toGeo]
+example : shortestPathT demo4 demoT2 0 2 none = .path [0, 1, 2] ⟨[ob 0, ob 10, ob 10, ob 1, ob 21, ob 2], []⟩ := by decide +kernel
+example : ∀ op ∈ [Op.back (.id 2), Op.path (.id 0) (.obj 2) none true, Op.dist (.obj 0) none (none : Option Int) false], OpOk demo4 op := by
+  intro op h
+  simp only [List.mem_cons, List.not_mem_nil, or_false] at h
+  rcases h with rfl | rfl | rfl <;> simp [OpOk, correctInputNode, demo4]
 
 /-- with a cut-off below the true distance the path returned may be a tentative one: 0 →1→ 1 →1→ 2 and 0 →5→ 2, cut-off 0:
 the search stops when node 1 (label 1 > 0) is popped, node 2 still carries the label 5 through the direct edge.
